@@ -54,7 +54,25 @@ def enc_arg(a, cnt):
         return OPEN(n) + STR(b"copyable") + STR(a[1].encode()) + CLOSE(n)
     if k == "O":
         return OPEN(n) + STR(a[1].encode()) + CLOSE(n)
+    if k == "M":          # (my-reference k): the peer's own object number k; no interface name, no URL
+        return OPEN(n) + STR(b"my-reference") + INT(a[1]) + CLOSE(n)
+    if k == "T":          # (their-reference giftID url): a gift; the URL names another Tub, its name part carries the gift id
+        return OPEN(n) + STR(b"their-reference") + INT(a[1]) + STR(gift_url(a[1]).encode()) + CLOSE(n)
     raise ValueError(a)
+
+
+FOREIGN_TUBID = "tb5ha7q5uhxsrd4gqvqvgxwhbs2ikmk7"
+
+
+def gift_url(g):
+    return "pb://%s@tcp:127.0.0.1:1/gift-%d" % (FOREIGN_TUBID, g)
+
+
+class GiftStandIn(object):
+    """what the (stubbed) dial returns: stands for the RemoteReference Tub.getReference would produce"""
+
+
+_classify = [None]       # set by System: how to describe a value a remote_ method / callable received
 
 
 def enc_call(cnt, req, clid, mbytes, args, kw=False):
@@ -160,35 +178,36 @@ class Base(Referenceable):
         self._log = log
         log.append(("init", wid))
 
-    def _enter(self, name):
-        self._log.append(("enter", self._wid, name))
+    def _enter(self, name, a=(), k=None):
+        argv = [_classify[0](x) for x in a] if _classify[0] and not k else None
+        self._log.append(("enter", self._wid, name, argv))
         return 42
 
     def remote_hi(self, *a, **k):
-        return self._enter("remote_hi")
+        return self._enter("remote_hi", a, k)
 
     def hi(self, *a, **k):
-        return self._enter("hi")
+        return self._enter("hi", a, k)
 
     def secret(self, *a, **k):
-        return self._enter("secret")
+        return self._enter("secret", a, k)
 
     def _private(self, *a, **k):
-        return self._enter("_private")
+        return self._enter("_private", a, k)
 
     def __call__(self, *a, **k):
-        return self._enter("__call__")
+        return self._enter("__call__", a, k)
 
     def cb_a(self, *a, **k):
-        return self._enter("cb_a")
+        return self._enter("cb_a", a, k)
 
     def cb_b(self, *a, **k):
-        return self._enter("cb_b")
+        return self._enter("cb_b", a, k)
 
 
 def add_method(cls, name):
     def m(self, *a, **k):
-        return self._enter(name)
+        return self._enter(name, a, k)
     m.__name__ = "m"
     setattr(cls, name, m)
 
@@ -285,7 +304,9 @@ _pem = None
 class System:
     """one Tub, two connections; `do(event)` executes one event and returns the observation"""
 
-    def __init__(self):
+    INIT_YOURS = 424242   # the clid of the peer object the application already holds on each connection (see below)
+
+    def __init__(self, accept_gifts=True):
         global _pem
         E.reset_clock()
         if _pem is None:
@@ -296,6 +317,15 @@ class System:
         self.tub = make_tub(self.net, "s", _pem)
         self.swiss = 0
         self.tub.generateSwissnumber = self._swiss
+        # gifts: the Tub's dial is replaced per Tub instance by a stub that records the URL and succeeds / fails as the
+        # current event says (no network in the sandbox; what a dial does is C05 / C14)
+        self.accept_gifts = accept_gifts
+        if not accept_gifts:
+            self.tub.setOption("accept-gifts", False)
+        self.dials = []
+        self.dial_ok = {}
+        self.tub.getReference = self._dial
+        _classify[0] = self.classify
         self.served = {}            # what the handler answers now: name -> world id
         self.handler = lambda name: self.objs.get(self.served.get(name))
         self.handler_on = False
@@ -322,9 +352,38 @@ class System:
             self.wrap_broker(b, c)
             self.br[c] = b
             # "the peer once sent us a reference to its object #1": what ReferenceUnslicer.receiveClose does
-            self.rref[c] = b.getTrackerForYourReference(1, None).getRef()
+            self.rref[c] = b.getTrackerForYourReference(self.INIT_YOURS, None).getRef()
             self.cnt[c] = [0]
         del self.log[:]
+
+    def _dial(self, url):
+        from twisted.internet import defer
+        url = url if isinstance(url, str) else str(url)
+        g = int(url.rsplit("gift-", 1)[1]) if "gift-" in url else None
+        self.dials.append(g)
+        if self.dial_ok.get(g, False):
+            return defer.succeed(GiftStandIn())
+        return defer.fail(failure.Failure(ConnectionDone("stubbed dial failed")))
+
+    def classify(self, x):
+        """what a value handed to application code IS (never compares addresses across runs: world ids only)"""
+        from foolscap.referenceable import RemoteReferenceOnly
+        if id(x) in self.wid_of and self.objs.get(self.wid_of[id(x)]) is x:
+            return ["local", self.wid_of[id(x)]]
+        if isinstance(x, broker.Broker):
+            return ["broker"] + [c for c in ("A", "B") if self.br[c] is x]
+        if isinstance(x, RemoteReferenceOnly):
+            return ["proxy"] + [c for c in ("A", "B") if self.br[c] is x.tracker.broker] + [x.tracker.clid]
+        if isinstance(x, RCBase):
+            return ["copy", x.CLS]
+        if isinstance(x, GiftStandIn):
+            return ["gift"]
+        if hasattr(x, "__self__") and (getattr(x.__self__, "_wid", None), getattr(x, "__name__", None)) in self.cb_wid:
+            return ["local", self.cb_wid[(x.__self__._wid, x.__name__)]]
+        return ["data"]
+
+    def yours(self, c):
+        return sorted(k for k in self.br[c].yourReferenceByCLID if k != self.INIT_YOURS)
 
     def _swiss(self, bits):
         s = "sw%d" % self.swiss
@@ -357,6 +416,11 @@ class System:
                 if not self.br[c].disconnected:
                     self.br[c].transport.loseConnection()
             self.tub.stopService()
+            E.turn()
+            # safe point: automatic cyclic collection is off during a check (finalizers of dead RemoteReferences schedule
+            # eventual-sends on the virtual clock from wherever the collector happens to run); collect here, between histories
+            import gc
+            gc.collect(1)     # the young generations hold what this history created (automatic collection is off)
             E.turn()
 
     def declare(self, wid, iname, how):
@@ -421,7 +485,8 @@ class System:
     def snapshot(self):
         return dict(A=self.exports("A"), B=self.exports("B"), aliveA=not self.br["A"].disconnected,
                     aliveB=not self.br["B"].disconnected, names=self.names(), rnames=self.rnames(),
-                    nextA=self.peek_next("A"), nextB=self.peek_next("B"), decl=self.decls())
+                    nextA=self.peek_next("A"), nextB=self.peek_next("B"), decl=self.decls(),
+                    yoursA=self.yours("A"), yoursB=self.yours("B"))
 
     def peek_next(self, c):
         # itertools.count repr is "count(n)"
@@ -432,6 +497,10 @@ class System:
         """-> observation: out ('Enter'|'Reject'|'Aborted'|'Dead'|'Local'), entered [(kind, wid, attr)], inst [cls],
         sent [(clid, url)] per connection, snapshot after, escaped exception (must be None)"""
         del self.log[:]
+        del self.dials[:]
+        self.dial_ok = {}
+        if ev[0] == "Msg":
+            self.dial_ok = {a[1]: bool(a[2]) for a in ev[5] if a[0] == "T"}
         for c in ("A", "B"):
             self.br[c].transport.take()
         kind = ev[0]
@@ -502,8 +571,11 @@ class System:
                 exc = traceback.format_exc()
         entered = []
         inst = []
+        argv = None
         for l in self.log:
             if l[0] == "enter":
+                if argv is None:
+                    argv = l[3]
                 if (l[1], l[2]) in self.cb_wid:
                     entered.append(("callable", self.cb_wid[(l[1], l[2])], ""))
                 else:
@@ -532,7 +604,7 @@ class System:
             except Exception:
                 sent[c] = [("unparsable", None)]
         snap = self.snapshot()
-        return dict(out=out, entered=entered, inst=inst, sent=sent, snap=snap, exc=exc,
+        return dict(out=out, entered=entered, inst=inst, sent=sent, snap=snap, exc=exc, argv=argv, dials=list(self.dials),
                     answered={c: len(written[c]) > 0 for c in written})
 
 
